@@ -1,12 +1,43 @@
 """Fail-closed translator: yowsup/axolotl/store/sqlite/lite*.py  ->  coq/Gen/C13Programs.v
 
-For every method of the five SQLite store classes it extracts the sequence of SQL statements
-(classified by verb, table, key columns, extra WHERE conditions, assigned columns) and
-commits the method executes, inlining `self.other(...)` calls, and writes them as the
-`store_def` the theorems of coq/C13 are instantiated with.  SELECTs are dropped (they do not
-change the database).  Anything it does not recognise raises Unrecognised: the check then
-treats the tie as broken.  A JSON side file tells the harness how each model argument is
-computed from the Python arguments (parameter + accessor chain + column affinity).
+A small symbolic interpreter of the five SQLite store classes.  For every method it computes the
+sequence of SQL statements (classified by verb, table, key columns, extra WHERE conditions,
+assigned columns) and commits the method executes, and writes them as the `store_def` the
+theorems of coq/C13 are instantiated with.  SELECTs are dropped (they do not change the
+database).
+
+What the interpreter follows:
+  * expressions are evaluated left to right; a value is a function of a parameter
+    (`x.getA().getB()`), a constant, SQL text, the connection, a cursor, a tuple of values, the
+    loop variable, or opaque;
+  * calls of methods of the same class (`self.h(..)`, also @staticmethod/@classmethod helpers,
+    positional/keyword/default arguments) are INLINED where they stand -- as statements, on the
+    right of assignments, in return values, in SQL parameter tuples, in comparisons and `if`
+    tests; the callee's database events are appended at that point and its return value
+    (`return e`, `return a, b`, unpacked by the caller) is computed when the callee is
+    straight-line up to `sys.version_info < (2, 7)` tests; a cursor / `self.dbConn.cursor()`
+    passed as an argument is a cursor in the callee;
+  * PUBLIC methods (what liteaxolotlstore.py delegates to, and every method whose name does not
+    start with one underscore) must translate; private helpers need not translate standalone
+    (they are skipped with a note and only interpreted at their call sites);
+  * data-dependent code (`if`, conditional expressions, and/or, loops over rows, early returns)
+    is accepted when everything under the condition only READS; a write or commit under a
+    data-dependent condition, or a data-dependent exit before the last write/commit of a
+    method, is Unrecognised (except an IntegrityError handler behind statements that cannot
+    raise it, which is dropped with a note);
+  * `for x in <list parameter>:` with exactly one write per iteration (SQL text may be bound
+    outside, one cursor per iteration or a shared one), commit outside;
+  * the guarded initialisation of LiteIdentityKeyStore.__init__: the guard is evaluated
+    concretely for "own row missing" and "own row present" through private predicate helpers,
+    early returns, `is None` / `is not None` / `not` / and / or, and must be true exactly when
+    the row is missing (or, for `if <guard>: return`, exactly when it is present); the body
+    may generate values (`name = <call without database events>`) and call helpers that do.
+Anything else (unknown SQL, dynamic SQL text, executemany/executescript/rollback, calls on the
+connection other than cursor/execute/commit, the connection / a cursor / self handed to code
+that is not a method of the class, unknown decorators on public methods ...) raises
+Unrecognised: the check then treats the tie as broken.  A JSON side file tells the harness how
+each model argument is computed from the Python arguments (parameter + accessor chain + column
+affinity) and carries the programs for the trace cross-check (harness/c13_tracecheck.py).
 """
 import ast, os, re, json
 from ..env import REPO, VERIF
@@ -199,7 +230,23 @@ class Sql(object):
         self.text = text
 
 
-CURSOR, OPAQUE, CONN = "cursor", "opaque", "conn"
+class Tup(object):
+    """A tuple / list display (or the tuple a helper returns) of symbolic values."""
+
+    def __init__(self, items):
+        self.items = list(items)
+
+
+CURSOR, OPAQUE, CONN, SELF = "cursor", "opaque", "conn", "self"
+CONN_ATTRS = {}      # class name -> attribute its __init__ stores the connection in (default dbConn)
+
+
+def conn_attr(cls):
+    return CONN_ATTRS.get(cls, "dbConn")
+
+
+CURSOR_READS = ("fetchone", "fetchall", "fetchmany", "close")
+COMPS = (ast.ListComp, ast.SetComp, ast.DictComp, ast.GeneratorExp)
 
 
 def is_py2_test(node):
@@ -211,29 +258,116 @@ def is_py2_test(node):
             and [getattr(e, "value", None) for e in node.comparators[0].elts] == [2, 7])
 
 
-def has_events(node):
+def has_events(node, cls=None):
+    """Syntactic over-approximation: may evaluating `node` reach the database?  (a call of
+    execute/commit/... on anything, or any call of a method of this class)"""
     for n in ast.walk(node):
         if isinstance(n, ast.Call) and isinstance(n.func, ast.Attribute):
             if n.func.attr in EVENT_ATTRS:
                 return True
-            if isinstance(n.func.value, ast.Name) and n.func.value.id == "self":
+            if isinstance(n.func.value, ast.Name) and n.func.value.id in ("self", "cls", cls):
                 return True
     return False
 
 
-def has_jump(node):
-    return any(isinstance(n, (ast.Return, ast.Raise, ast.Break, ast.Continue)) for n in ast.walk(node))
+def jump_kind(nodes):
+    """False | "return" | "exit": can the statements leave the enclosing method (return) or the
+    whole call chain / loop (raise, break, continue)?"""
+    kind = False
+    for node in nodes:
+        for n in ast.walk(node):
+            if isinstance(n, (ast.Raise, ast.Break, ast.Continue)):
+                return "exit"
+            if isinstance(n, ast.Return):
+                kind = "return"
+    return kind
 
 
-class MethodTranslator(object):
-    def __init__(self, cls, methods, tables, where):
-        self.cls, self.methods, self.tables, self.where = cls, methods, tables, where
+def assigned_names(nodes):
+    out = set()
+    for node in nodes:
+        for n in ast.walk(node):
+            if isinstance(n, (ast.Assign, ast.AugAssign, ast.AnnAssign, ast.For, ast.NamedExpr)):
+                tgts = n.targets if isinstance(n, ast.Assign) else [n.target]
+                for t in tgts:
+                    for x in ast.walk(t):
+                        if isinstance(x, ast.Name):
+                            out.add(x.id)
+            elif isinstance(n, ast.ExceptHandler) and n.name:
+                out.add(n.name)
+            elif isinstance(n, ast.withitem) and n.optional_vars is not None:
+                for x in ast.walk(n.optional_vars):
+                    if isinstance(x, ast.Name):
+                        out.add(x.id)
+    return out
+
+
+def is_effect(e):
+    """an event that changes the database or the transaction state"""
+    return e[0] in ("commit", "each") or (e[0] == "sql" and e[1]["verb"] != "select")
+
+
+def method_kind(fdef):
+    """"instance" | "static" | "class" | None (a decorator the interpreter does not know)"""
+    decs = fdef.decorator_list
+    if not decs:
+        return "instance"
+    if len(decs) == 1 and isinstance(decs[0], ast.Name) and decs[0].id in ("staticmethod", "classmethod"):
+        return "static" if decs[0].id == "staticmethod" else "class"
+    return None
+
+
+def is_private(name):
+    return name.startswith("_") and not (name.startswith("__") and name.endswith("__"))
+
+
+class Frame(object):
+    """Where the interpreter is: local bindings, the event list being appended to, call depth
+    and stack, and whether we are inside a `for` body."""
+
+    def __init__(self, env, out, depth=0, in_loop=False, stack=()):
+        self.env, self.out, self.depth, self.in_loop, self.stack = env, out, depth, in_loop, tuple(stack)
+        self.w = ""
+
+    def fork(self, env=None, out=None, **kw):
+        f = Frame(self.env if env is None else env, self.out if out is None else out,
+                  kw.get("depth", self.depth), kw.get("in_loop", self.in_loop), kw.get("stack", self.stack))
+        f.w = self.w
+        return f
+
+
+class Interp(object):
+    """Symbolic interpreter of one store class.
+
+    Events (appended to Frame.out in execution order):
+      ("sql", parsed, params|None, where)   one execute() of a literal statement
+      ("each", loop parameter, parsed, params)   `for x in <list parameter>:` with one write
+      ("commit",)
+      ("branch", False|"return"|"exit", where)   data-dependent code without database writes;
+                                            the flag says whether it can leave the method
+      ("end", "return"|"raise", where)      unconditional end of the method body
+      ("note", text)
+    Expressions are evaluated left to right; calls of methods of the class are inlined at the
+    point of the call (their events are appended there) and their return value is computed when
+    the callee is straight-line.  Whatever is not understood raises Unrecognised.
+    """
+
+    def __init__(self, cls, methods, tables, where, init_ctx=False):
+        self.cls, self.methods, self.tables, self.where, self.init_ctx = cls, methods, tables, where, init_ctx
+        self.kinds = {n: method_kind(f) for n, f in methods.items()}
+        self.gen_count = 0
+
+    def has_events(self, node):
+        return has_events(node, self.cls)
 
     # --- expressions
-    def ev(self, node, env):
+    def ev(self, node, fr):
+        w = fr.w
         if isinstance(node, ast.Constant):
             if isinstance(node.value, str):
                 return Sql(node.value)
+            if isinstance(node.value, bool):
+                return Const(int(node.value))
             if isinstance(node.value, int) or node.value is None:
                 return Const(node.value)
             return OPAQUE
@@ -241,171 +375,556 @@ class MethodTranslator(object):
                 isinstance(node.operand, ast.Constant) and isinstance(node.operand.value, int):
             return Const(-node.operand.value)
         if isinstance(node, ast.Name):
-            return env.get(node.id, OPAQUE)
-        if isinstance(node, ast.IfExp) and is_py2_test(node.test):
-            return self.ev(node.orelse, env)
-        if isinstance(node, ast.Attribute) and isinstance(node.value, ast.Name) and \
-                node.value.id == "self" and node.attr == "dbConn":
-            return CONN
-        if isinstance(node, ast.Call) and isinstance(node.func, ast.Attribute) and not node.keywords:
-            base = self.ev(node.func.value, env)
-            if base == CONN and node.func.attr == "cursor" and not node.args:
-                return CURSOR
-            if isinstance(base, Val) and not node.args:
-                return Val(base.root, base.chain + (node.func.attr,))
+            if node.id == "self" and "self" not in fr.env:
+                return SELF
+            return fr.env.get(node.id, OPAQUE)
+        if isinstance(node, ast.IfExp):
+            if is_py2_test(node.test):
+                return self.ev(node.orelse, fr)
+            self.ev(node.test, fr)
+            self.ev_conditional([node.body, node.orelse], fr, "conditional expression")
+            return OPAQUE
+        if isinstance(node, ast.Attribute):
+            if isinstance(node.value, ast.Name) and node.value.id == "self" and "self" not in fr.env:
+                return CONN if node.attr == conn_attr(self.cls) else OPAQUE
+            self.ev(node.value, fr)
+            return OPAQUE
+        if isinstance(node, (ast.Tuple, ast.List)):
+            if any(isinstance(e, ast.Starred) for e in node.elts):
+                for e in node.elts:
+                    self.ev(e, fr)
+                return OPAQUE
+            return Tup([self.ev(e, fr) for e in node.elts])
+        if isinstance(node, ast.Call):
+            return self.call(node, fr)
+        if isinstance(node, ast.BoolOp):
+            self.ev(node.values[0], fr)
+            self.ev_conditional(node.values[1:], fr, "and/or operand")
+            return OPAQUE
+        if isinstance(node, (ast.Compare, ast.BinOp, ast.UnaryOp, ast.Subscript, ast.Slice, ast.JoinedStr,
+                             ast.FormattedValue, ast.Starred)):
+            for ch in ast.iter_child_nodes(node):
+                if isinstance(ch, ast.expr):
+                    self.ev(ch, fr)
+            return OPAQUE
+        if isinstance(node, COMPS):
+            # the first iterable is evaluated once, where the comprehension stands
+            self.ev(node.generators[0].iter, fr)
+            rest = [g for g in node.generators[1:]] + [ast.Tuple(elts=list(node.generators[0].ifs), ctx=ast.Load())]
+            rest.append(node.elt if not isinstance(node, ast.DictComp) else ast.Tuple(elts=[node.key, node.value], ctx=ast.Load()))
+            if any(self.has_events(x) for x in rest):
+                fail(w, "database call inside a comprehension")
+            return OPAQUE
+        if self.has_events(node):
+            fail(w, "database call inside an expression that is not understood: %s" % type(node).__name__)
         return OPAQUE
 
-    # --- statements
-    def body(self, stmts, env, out, depth, in_loop=False):
-        for i, st in enumerate(stmts):
-            self.stmt(st, env, out, depth, in_loop)
+    def ev_conditional(self, nodes, fr, what):
+        """operands that are evaluated only under a data-dependent condition: reads only"""
+        tmp = []
+        f2 = fr.fork(out=tmp)
+        for n in nodes:
+            self.ev(n, f2)
+        if any(is_effect(e) for e in tmp):
+            fail(fr.w, "database write or commit under a condition (%s)" % what)
+        fr.out.extend(tmp)
+        if any(e[0] == "sql" for e in tmp):
+            fr.out.append(("branch", False, fr.w))
 
-    def stmt(self, st, env, out, depth, in_loop):
-        w = "%s line %d" % (self.where, getattr(st, "lineno", 0))
+    def escape_check(self, v, w, how):
+        """the connection, a cursor or the store object handed to code the interpreter cannot see"""
+        vs = v.items if isinstance(v, Tup) else [v]
+        for x in vs:
+            if isinstance(x, Tup):
+                self.escape_check(x, w, how)
+            elif x in (CONN, CURSOR, SELF):
+                fail(w, "the %s is %s (code the translator cannot follow)" % (
+                    {CONN: "connection", CURSOR: "cursor", SELF: "store object"}[x], how))
+        return v
+
+    def fresh_gen(self):
+        self.gen_count += 1
+        return Val("gen:value%d" % self.gen_count)
+
+    def call(self, node, fr):
+        w = fr.w
+        f = node.func
+        if isinstance(f, ast.Attribute):
+            # self.other(args) / cls.other(args) / ClassName.other(args)
+            if isinstance(f.value, ast.Name) and f.value.id not in fr.env and \
+                    f.value.id in ("self", "cls", self.cls):
+                if f.attr not in self.methods:
+                    fail(w, "call of unknown method self.%s" % f.attr)
+                return self.inline(f.attr, node, fr, via_class=(f.value.id != "self"))
+            if f.attr in EVENT_ATTRS:
+                base = self.ev(f.value, fr)
+                if base not in (CONN, CURSOR):
+                    fail(w, ".%s() on something that is not the connection or a cursor of it" % f.attr)
+                if f.attr == "commit":
+                    if base != CONN or node.args or node.keywords:
+                        fail(w, "commit() shape not understood")
+                    fr.out.append(("commit",))
+                    return Const(None)
+                if f.attr != "execute":
+                    fail(w, "%s() is not supported" % f.attr)
+                if not node.args or node.keywords or len(node.args) > 2 or \
+                        any(isinstance(a, ast.Starred) for a in node.args):
+                    fail(w, "execute() shape not understood")
+                q = self.ev(node.args[0], fr)
+                if not isinstance(q, Sql):
+                    fail(w, "SQL text is not a string literal")
+                sql = parse_sql(q.text, w)
+                params = []
+                if len(node.args) == 2:
+                    p = self.ev(node.args[1], fr)
+                    if isinstance(p, Tup):
+                        params = p.items
+                    elif sql["verb"] == "select":
+                        params = None
+                    else:
+                        fail(w, "SQL parameters must be a tuple")
+                fr.out.append(("sql", sql, params, w))
+                return CURSOR
+            base = self.ev(f.value, fr)
+            args = [self.ev(a, fr) for a in node.args] + [self.ev(k.value, fr) for k in node.keywords]
+            if base == CONN:
+                if f.attr == "cursor" and not args:
+                    return CURSOR
+                fail(w, "call of .%s() on the connection is not understood" % f.attr)
+            if base == CURSOR:
+                if f.attr in CURSOR_READS:
+                    for a in args:
+                        self.escape_check(a, w, "passed to a cursor method")
+                    return OPAQUE
+                fail(w, "call of .%s() on a cursor is not understood" % f.attr)
+            if base == SELF:
+                fail(w, "call of unknown method self.%s" % f.attr)
+            for a in args:
+                self.escape_check(a, w, "passed to a call on another object")
+            if isinstance(base, Val) and not args:
+                return Val(base.root, base.chain + (f.attr,))
+            return self.fresh_gen() if self.init_ctx else OPAQUE
+        if not isinstance(f, ast.Name):
+            self.escape_check(self.ev(f, fr), w, "called")
+        for a in list(node.args) + [k.value for k in node.keywords]:
+            self.escape_check(self.ev(a, fr), w, "passed to a function")
+        return self.fresh_gen() if self.init_ctx else OPAQUE
+
+    def inline(self, name, node, fr, via_class=False):
+        w = fr.w
+        kind = self.kinds[name]
+        fdef = self.methods[name]
+        a = fdef.args
+        if kind is None or a.vararg or a.kwarg or a.kwonlyargs or a.posonlyargs:
+            fail(w, "call of self.%s whose signature is not understood" % name)
+        if via_class and kind == "instance":
+            fail(w, "instance method %s called through the class" % name)
+        if fr.depth > 6 or name in fr.stack:
+            fail(w, "call nesting too deep or recursive (self.%s)" % name)
+        params = [x.arg for x in a.args]
+        if kind in ("instance", "class"):
+            if not params:
+                fail(w, "method %s has no receiver parameter" % name)
+            params = params[1:]
+        if any(isinstance(x, ast.Starred) for x in node.args) or any(k.arg is None for k in node.keywords):
+            fail(w, "star arguments in self-call")
+        if len(node.args) > len(params):
+            fail(w, "argument count mismatch calling self.%s" % name)
+        bound = {}
+        for p, x in zip(params, node.args):          # left to right, events land in the caller's list
+            bound[p] = self.ev(x, fr)
+        for k in node.keywords:
+            v = self.ev(k.value, fr)
+            if k.arg not in params or k.arg in bound:
+                fail(w, "keyword argument %s not understood calling self.%s" % (k.arg, name))
+            bound[k.arg] = v
+        defaults = dict(zip(params[len(params) - len(a.defaults):], a.defaults)) if a.defaults else {}
+        for p in params:
+            if p not in bound:
+                if p not in defaults or self.has_events(defaults[p]):
+                    fail(w, "argument count mismatch calling self.%s" % name)
+                bound[p] = self.ev(defaults[p], Frame({}, []))
+        inner = []
+        f2 = Frame(bound, inner, fr.depth + 1, fr.in_loop, fr.stack + (name,))
+        r = self.body(fdef.body, f2)
+        if r is not None and r[0] == "raise":
+            fail(w, "self.%s always raises" % name)
+        # the `return` that ends the callee only ends the callee
+        while inner and inner[-1][0] == "end":
+            inner.pop()
+        ret = r[1] if r is not None else Const(None)
+        for i, e in enumerate(inner):
+            if e[0] == "branch" and e[1] == "return":
+                ret = OPAQUE      # the callee may have returned something else earlier
+                if not any(is_effect(x) for x in inner[i + 1:]):
+                    # leaving the callee early skips only reads: for the caller this is ordinary
+                    # data-dependent code without writes
+                    inner[i] = ("branch", False, e[2])
+        fr.out.extend(inner)
+        return ret
+
+    # --- statements
+    def body(self, stmts, fr):
+        """-> None (fell through) | ("ret", value) | ("raise",); statements behind an unconditional
+        return/raise are dead and not interpreted"""
+        for st in stmts:
+            r = self.stmt(st, fr)
+            if r is not None:
+                return r
+        return None
+
+    def invalidate(self, nodes, fr):
+        """names assigned anywhere inside the statements `nodes` are unknown afterwards"""
+        for n in assigned_names(nodes):
+            fr.env[n] = OPAQUE
+
+    def invalidate_target(self, target, fr):
+        """names occurring in an assignment target are unknown afterwards"""
+        for x in ast.walk(target):
+            if isinstance(x, ast.Name) and isinstance(x.ctx, ast.Store):
+                fr.env[x.id] = OPAQUE
+
+    def bind(self, target, v, value_node, fr):
+        w = fr.w
+        if isinstance(target, ast.Name):
+            if self.init_ctx and isinstance(v, Val) and v.root.startswith("gen:value") and not v.chain \
+                    and isinstance(value_node, ast.Call):
+                v = Val("gen:" + target.id)
+            fr.env[target.id] = v
+        elif isinstance(target, (ast.Tuple, ast.List)) and isinstance(v, Tup) and len(v.items) == len(target.elts) \
+                and not any(isinstance(t, ast.Starred) for t in target.elts):
+            for t, x in zip(target.elts, v.items):
+                self.bind(t, x, None, fr)
+        elif isinstance(target, ast.Attribute) and isinstance(target.value, ast.Name) and target.value.id == "self":
+            if target.attr == conn_attr(self.cls):
+                fail(w, "the connection attribute is reassigned")
+            self.escape_check(v, w, "stored in an attribute")
+        else:
+            if self.has_events(target):
+                fail(w, "database call inside an assignment target")
+            self.escape_check(v, w, "stored in a container")
+            self.invalidate_target(target, fr)
+
+    def stmt(self, st, fr):
+        w = fr.w = "%s line %d" % (self.where, getattr(st, "lineno", 0))
+        out = fr.out
         if isinstance(st, ast.Expr) and isinstance(st.value, ast.Constant):
-            return
+            return None
         if isinstance(st, ast.Assign):
-            if self.call_event(st.value, env, out, depth, w, in_loop):
-                for t in st.targets:
-                    for n in ast.walk(t):
-                        if isinstance(n, ast.Name):
-                            env[n.id] = OPAQUE
-                return
-            if has_events(st.value):
-                fail(w, "database call inside an expression")
-            v = self.ev(st.value, env)
+            v = self.ev(st.value, fr)
+            fr.w = w
             for t in st.targets:
-                if isinstance(t, ast.Name):
-                    env[t.id] = v
-                elif isinstance(t, ast.Attribute) and isinstance(t.value, ast.Name) and t.value.id == "self":
-                    pass
-                else:
-                    for n in ast.walk(t):
-                        if isinstance(n, ast.Name):
-                            env[n.id] = OPAQUE
-            return
+                self.bind(t, v, st.value, fr)
+            return None
+        if isinstance(st, ast.AnnAssign):
+            if st.value is not None:
+                v = self.ev(st.value, fr)
+                fr.w = w
+                self.bind(st.target, v, st.value, fr)
+            return None
+        if isinstance(st, ast.AugAssign):
+            self.escape_check(self.ev(st.value, fr), w, "used in an augmented assignment")
+            if self.has_events(st.target):
+                fail(w, "database call inside an assignment target")
+            self.invalidate_target(st.target, fr)
+            return None
         if isinstance(st, ast.Expr):
-            if self.call_event(st.value, env, out, depth, w, in_loop):
-                return
-            if has_events(st.value):
-                fail(w, "database call inside an expression")
-            return
+            self.ev(st.value, fr)
+            return None
         if isinstance(st, ast.If):
             if is_py2_test(st.test):
-                self.body(st.orelse, env, out, depth, in_loop)
-                return
-            if has_events(st):
-                fail(w, "database call under a condition")
-            out.append(("branch", has_jump(st), w))
-            for n in ast.walk(st):
-                if isinstance(n, ast.Assign):
-                    for t in n.targets:
-                        for x in ast.walk(t):
-                            if isinstance(x, ast.Name):
-                                env[x.id] = OPAQUE
-            return
+                return self.body(st.orelse, fr)
+            self.ev(st.test, fr)           # the test itself is evaluated unconditionally
+            fr.w = w
+            branches = st.body + st.orelse
+            if not any(self.has_events(x) for x in branches):
+                out.append(("branch", jump_kind(branches), w))
+                self.invalidate(branches, fr)
+                return None
+            # database calls under a data-dependent condition: reads only
+            for br in (st.body, st.orelse):
+                tmp = []
+                self.body(br, fr.fork(env=dict(fr.env), out=tmp))
+                if any(is_effect(e) for e in tmp):
+                    fail(w, "database write or commit under a condition")
+                for e in tmp:
+                    out.append(("branch", "return" if e[1] == "return" else "exit", e[2]) if e[0] == "end" else e)
+            fr.w = w
+            out.append(("branch", False, w))
+            self.invalidate(branches, fr)
+            return None
         if isinstance(st, ast.For):
-            if not has_events(st):
-                out.append(("branch", has_jump(st), w))
-                return
-            if in_loop or st.orelse or not isinstance(st.target, ast.Name):
+            if not self.has_events(st):
+                out.append(("branch", jump_kind([st]), w))
+                self.invalidate([st], fr)
+                return None
+            if fr.in_loop or st.orelse or not isinstance(st.target, ast.Name):
                 fail(w, "loop shape not understood")
-            it = self.ev(st.iter, env)
+            it = self.ev(st.iter, fr)
             if not (isinstance(it, Val) and not it.chain):
                 fail(w, "loop must iterate over a parameter")
-            env2 = dict(env)
+            env2 = dict(fr.env)
             env2[st.target.id] = Loop()
             inner = []
-            self.body(st.body, env2, inner, depth, in_loop=True)
-            ws = [e for e in inner if e[0] == "sql"]
-            if len(ws) != 1 or any(e[0] in ("commit", "branch") for e in inner):
+            r = self.body(st.body, fr.fork(env=env2, out=inner, in_loop=True))
+            fr.w = w
+            ws = [e for e in inner if e[0] == "sql" and e[1]["verb"] != "select"]
+            if r is not None or len(ws) != 1 or any(e[0] in ("commit", "branch", "each", "end") for e in inner):
                 fail(w, "loop body must be exactly one INSERT/UPDATE/DELETE")
+            out.extend(e for e in inner if e[0] == "note")
             out.append(("each", it.root, ws[0][1], ws[0][2]))
-            return
+            self.invalidate([st], fr)
+            return None
         if isinstance(st, ast.Try):
-            if st.orelse or st.finalbody and has_events(ast.Module(body=st.finalbody, type_ignores=[])):
+            if st.orelse or st.finalbody and any(self.has_events(x) for x in st.finalbody):
                 fail(w, "try/else/finally with database calls")
             inner = []
-            self.body(st.body, env, inner, depth, in_loop)
+            r = self.body(st.body, fr.fork(out=inner))
+            fr.w = w
             fallible = any(e[0] == "sql" and e[1]["verb"] == "insert" and not e[1]["orreplace"] for e in inner) \
                 or any(e[0] == "each" and e[2]["verb"] == "insert" and not e[2]["orreplace"] for e in inner)
             for h in st.handlers:
-                if has_events(h):
+                if self.has_events(h):
                     ok = (not fallible and isinstance(h.type, ast.Attribute) and h.type.attr == "IntegrityError")
                     if not ok:
                         fail(w, "exception handler with database calls that can be reached")
                     out.append(("note", "handler for IntegrityError at %s dropped: the guarded statements "
                                         "cannot raise it (no plain INSERT)" % w))
             out.extend(inner)
-            return
-        if isinstance(st, (ast.Return, ast.Raise)):
-            if has_events(st):
-                fail(w, "database call inside return/raise")
-            out.append(("end", w))
-            return
+            self.invalidate(list(st.handlers) + list(st.finalbody), fr)
+            return r
+        if isinstance(st, ast.Return):
+            v = Const(None)
+            if st.value is not None:
+                v = self.ev(st.value, fr)
+                if fr.depth == 0:
+                    self.escape_check(v, w, "returned to the caller of the store")
+            out.append(("end", "return", w))
+            return ("ret", v)
+        if isinstance(st, ast.Raise):
+            if self.has_events(st):
+                fail(w, "database call inside raise")
+            out.append(("end", "raise", w))
+            return ("raise",)
         if isinstance(st, ast.Pass):
-            return
-        if has_events(st):
+            return None
+        if self.has_events(st):
             fail(w, "statement with database calls not understood: %s" % type(st).__name__)
-        out.append(("branch", has_jump(st), w))
+        out.append(("branch", jump_kind([st]), w))
+        self.invalidate([st], fr)
+        return None
 
-    def call_event(self, node, env, out, depth, w, in_loop):
-        """node is the expression of an Expr/Assign; returns True if it was a database call or
-        an inlined self-call and has been recorded."""
-        if not (isinstance(node, ast.Call) and isinstance(node.func, ast.Attribute)):
+
+# ---------------------------------------------------------------- the initialisation guard
+class GuardUnknown(Exception):
+    pass
+
+
+G_NONE, G_SOME, G_EMPTY = "none", "some", "empty"      # None | an object / non-NULL value | falsy, not None
+
+
+class GuardEval(object):
+    """Concrete evaluation of the guard of the identity store's guarded initialisation, once with
+    the looked-up row ABSENT and once with it PRESENT.  Values: None, "something" (a row, a
+    column of it -- assumed non-NULL --, an object built from it), an empty/zero value, True,
+    False, cursors, SQL text.  Every SELECT met must look ONE constant key of a table up; the
+    rows looked up are collected in `rows`.  Follows self-calls, early returns, `is None`,
+    `is not None`, `not`, `and`/`or`, conditional expressions.  GuardUnknown = cannot analyse."""
+
+    def __init__(self, cls, methods, tables, present, rows, where):
+        self.cls, self.methods, self.tables, self.present, self.rows, self.where = \
+            cls, methods, tables, present, rows, where
+        self.trusted = []
+
+    def truth(self, v):
+        if v in (G_NONE, G_EMPTY) or v is False:
             return False
-        f = node.func
-        # self.other(args)
-        if isinstance(f.value, ast.Name) and f.value.id == "self":
-            if f.attr not in self.methods:
-                fail(w, "call of unknown method self.%s" % f.attr)
-            if depth > 4:
-                fail(w, "call nesting too deep")
-            if node.keywords:
-                fail(w, "keyword arguments in self-call")
-            callee = self.methods[f.attr]
-            params = [a.arg for a in callee.args.args][1:]
-            if len(params) != len(node.args):
-                fail(w, "argument count mismatch calling self.%s" % f.attr)
-            env2 = {}
-            for p, a in zip(params, node.args):
-                if has_events(a):
-                    fail(w, "database call in argument")
-                env2[p] = self.ev(a, env)
-            inner = []
-            self.body(callee.body, env2, inner, depth + 1, in_loop)
-            # a `return` at the end of the callee only ends the callee
-            while inner and inner[-1][0] == "end":
-                inner.pop()
-            if any(e[0] == "end" for e in inner):
-                inner.append(("branch", True, w))
-            out.extend(inner)
+        if v == G_SOME or v is True:
             return True
-        if f.attr not in EVENT_ATTRS:
-            return False
-        base = self.ev(f.value, env)
-        if base not in (CONN, CURSOR):
-            fail(w, ".%s() on something that is not the connection or a cursor of it" % f.attr)
-        if f.attr == "commit":
-            if base != CONN or node.args:
-                fail(w, "commit() shape not understood")
-            out.append(("commit",))
-            return True
-        if f.attr != "execute":
-            fail(w, "%s() is not supported" % f.attr)
-        if not node.args or node.keywords or len(node.args) > 2:
-            fail(w, "execute() shape not understood")
-        q = self.ev(node.args[0], env)
-        if not isinstance(q, Sql):
-            fail(w, "SQL text is not a string literal")
-        sql = parse_sql(q.text, w)
-        params = []
-        if len(node.args) == 2:
-            if not isinstance(node.args[1], ast.Tuple):
-                fail(w, "SQL parameters must be a tuple")
-            params = [self.ev(a, env) for a in node.args[1].elts]
-        out.append(("sql", sql, params, w))
-        return True
+        raise GuardUnknown("truth value of %r" % (v,))
+
+    def select(self, text, nparams):
+        sql = parse_sql(text, self.where)
+        if sql["verb"] != "select":
+            fail(self.where, "the initialisation guard executes something other than a SELECT")
+        mm = re.fullmatch(r"(\w+) ?= ?(-?\d+)", sql["where"].strip())
+        T = self.tables.get(sql["table"])
+        if not mm or T is None or T["key"] != [mm.group(1)] or nparams:
+            fail(self.where, "guard SELECT does not look one constant key up")
+        self.rows.add((sql["table"], int(mm.group(2))))
+
+    def call_method(self, name, args, depth):
+        fdef = self.methods[name]
+        kind = method_kind(fdef)
+        a = fdef.args
+        if kind is None or a.vararg or a.kwarg or a.kwonlyargs or a.posonlyargs or a.defaults or depth > 6:
+            raise GuardUnknown("signature of %s" % name)
+        params = [x.arg for x in a.args][(0 if kind == "static" else 1):]
+        if len(params) != len(args):
+            raise GuardUnknown("arguments of %s" % name)
+        try:
+            r = self.body(fdef.body, dict(zip(params, args)), depth + 1)
+            return r[1] if r is not None else G_NONE
+        except GuardUnknown:
+            if is_private(name):
+                raise
+            # a public reader whose body is not analysed: as before, it is taken to return None
+            # exactly when the single constant-key row it SELECTs is missing
+            ev = []
+            try:
+                Interp(self.cls, self.methods, self.tables, self.where).body(
+                    fdef.body, Frame({p: Val(p) for p in params}, ev))
+            except Unrecognised:
+                raise GuardUnknown("reader %s" % name)
+            sel = [e for e in ev if e[0] == "sql"]
+            if len(sel) != 1 or sel[0][1]["verb"] != "select" or any(is_effect(e) for e in ev) or args:
+                fail(self.where, "guard method %s is not a single SELECT" % name)
+            self.select("SELECT x FROM %s WHERE %s" % (sel[0][1]["table"], sel[0][1]["where"]), 0)
+            self.trusted.append(name)
+            return G_SOME if self.present else G_NONE
+
+    def body(self, stmts, env, depth):
+        for st in stmts:
+            if isinstance(st, ast.Expr) and isinstance(st.value, ast.Constant) or isinstance(st, ast.Pass):
+                continue
+            if isinstance(st, ast.Assign) and len(st.targets) == 1:
+                v = self.ev(st.value, env, depth)
+                t = st.targets[0]
+                if isinstance(t, ast.Name):
+                    env[t.id] = v
+                elif isinstance(t, ast.Tuple) and all(isinstance(x, ast.Name) for x in t.elts) and v == G_SOME:
+                    for x in t.elts:
+                        env[x.id] = G_SOME
+                else:
+                    raise GuardUnknown("assignment")
+                continue
+            if isinstance(st, ast.Expr):
+                self.ev(st.value, env, depth)
+                continue
+            if isinstance(st, ast.If):
+                if is_py2_test(st.test):
+                    taken = st.orelse
+                else:
+                    taken = st.body if self.truth(self.ev(st.test, env, depth)) else st.orelse
+                r = self.body(taken, env, depth)
+                if r is not None:
+                    return r
+                continue
+            if isinstance(st, ast.Return):
+                return ("ret", G_NONE if st.value is None else self.ev(st.value, env, depth))
+            raise GuardUnknown(type(st).__name__)
+        return None
+
+    def ev(self, node, env, depth):
+        if isinstance(node, ast.Constant):
+            v = node.value
+            if v is None:
+                return G_NONE
+            if isinstance(v, bool):
+                return v
+            if isinstance(v, str):
+                return ("sql", v)
+            if isinstance(v, int):
+                return G_SOME if v else G_EMPTY
+            raise GuardUnknown("constant")
+        if isinstance(node, ast.Name):
+            if node.id not in env:
+                raise GuardUnknown("name %s" % node.id)
+            return env[node.id]
+        if isinstance(node, ast.Attribute):
+            if isinstance(node.value, ast.Name) and node.value.id == "self" and node.attr == conn_attr(self.cls):
+                return "conn"
+            if self.ev(node.value, env, depth) == G_SOME:
+                return G_SOME
+            raise GuardUnknown("attribute")
+        if isinstance(node, ast.UnaryOp) and isinstance(node.op, ast.Not):
+            return not self.truth(self.ev(node.operand, env, depth))
+        if isinstance(node, ast.BoolOp):
+            v = None
+            for x in node.values:
+                v = self.ev(x, env, depth)
+                if self.truth(v) != isinstance(node.op, ast.And):
+                    return v
+            return v
+        if isinstance(node, ast.IfExp):
+            if is_py2_test(node.test):
+                return self.ev(node.orelse, env, depth)
+            return self.ev(node.body if self.truth(self.ev(node.test, env, depth)) else node.orelse, env, depth)
+        if isinstance(node, ast.Compare):
+            if len(node.ops) == 1 and isinstance(node.ops[0], (ast.Is, ast.IsNot)) and \
+                    isinstance(node.comparators[0], ast.Constant) and node.comparators[0].value is None:
+                v = self.ev(node.left, env, depth)
+                if v not in (G_NONE, G_SOME, G_EMPTY, True, False):
+                    raise GuardUnknown("is None on %r" % (v,))
+                return (v == G_NONE) == isinstance(node.ops[0], ast.Is)
+            raise GuardUnknown("comparison")
+        if isinstance(node, ast.Subscript):
+            if self.ev(node.value, env, depth) == G_SOME:
+                return G_SOME
+            raise GuardUnknown("subscript")
+        if isinstance(node, ast.Tuple):
+            for x in node.elts:
+                self.ev(x, env, depth)
+            return G_SOME
+        if isinstance(node, ast.Call):
+            f = node.func
+            if node.keywords and not all(k.arg for k in node.keywords):
+                raise GuardUnknown("call")
+            if isinstance(f, ast.Attribute):
+                if isinstance(f.value, ast.Name) and f.value.id in ("self", "cls", self.cls):
+                    if f.attr not in self.methods or node.keywords:
+                        raise GuardUnknown("call of self.%s" % f.attr)
+                    return self.call_method(f.attr, [self.ev(a, env, depth) for a in node.args], depth)
+                base = self.ev(f.value, env, depth)
+                if base == "conn" and f.attr == "cursor" and not node.args:
+                    return ["cur", None]
+                if (base == "conn" or isinstance(base, list)) and f.attr == "execute" and not node.keywords:
+                    if not (1 <= len(node.args) <= 2):
+                        raise GuardUnknown("execute")
+                    q = self.ev(node.args[0], env, depth)
+                    if not (isinstance(q, tuple) and q[0] == "sql"):
+                        raise GuardUnknown("SQL text")
+                    np = 0
+                    if len(node.args) == 2:
+                        if not isinstance(node.args[1], ast.Tuple):
+                            raise GuardUnknown("SQL parameters")
+                        np = len(node.args[1].elts)
+                    self.select(q[1], np)
+                    cur = base if isinstance(base, list) else ["cur", None]
+                    cur[1] = self.present
+                    return cur
+                if isinstance(base, list) and f.attr in ("fetchone", "fetchall") and not node.args:
+                    if base[1] is None:
+                        raise GuardUnknown("fetch before execute")
+                    return G_SOME if base[1] else (G_NONE if f.attr == "fetchone" else G_EMPTY)
+                if base == "conn" or isinstance(base, list) or f.attr in EVENT_ATTRS:
+                    fail(self.where, "the initialisation guard calls .%s() on the connection or a cursor" % f.attr)
+            elif not isinstance(f, ast.Name):
+                raise GuardUnknown("call")
+            # a constructor / pure function over values: yields an object
+            for a in list(node.args) + [k.value for k in node.keywords]:
+                v = self.ev(a, env, depth)
+                if v == "conn" or isinstance(v, list):
+                    raise GuardUnknown("connection passed on")
+            return G_SOME
+        raise GuardUnknown(type(node).__name__)
+
+
+def analyse_guard(test, cls, methods, tables, w):
+    """-> (table, key, notes): the guard is true exactly when that row is missing; else Unrecognised"""
+    rows, res, trusted = set(), {}, []
+    for present in (False, True):
+        ge = GuardEval(cls, methods, tables, present, rows, w)
+        try:
+            res[present] = ge.truth(ge.ev(test, {}, 0))
+        except GuardUnknown as e:
+            fail(w, "initialisation guard not understood (%s)" % e)
+        trusted += ge.trusted
+    if len(rows) != 1:
+        fail(w, "guard must test exactly one row")
+    notes = ["guard reader %s.%s not analysed statement by statement: taken to return None exactly when the row "
+             "it SELECTs is missing" % (cls, n) for n in sorted(set(trusted))]
+    return res[False], res[True], list(rows)[0], notes
 
 
 # ---------------------------------------------------------------- assembling programs
@@ -420,13 +939,17 @@ class ProgBuilder(object):
         notes = [e[1] for e in events if e[0] == "note"]
         if not writes and not commits:
             return [], [], None, notes
-        # a method that writes must be straight-line: no early exit, no conditional code that jumps
+        # a method that writes must be straight-line up to its last write/commit: no early exit, no
+        # conditional code that can jump before that point (what follows the last write or commit
+        # cannot change what the call does to the database)
         effective = [e for e in events if e[0] != "note"]
         while effective and effective[-1][0] == "end":
             effective.pop()
-        for e in effective:
+        last = max(i for i, e in enumerate(effective) if is_effect(e))
+        for e in effective[:last]:
             if e[0] == "end" or (e[0] == "branch" and e[1]):
                 fail(where, "early exit in a method that writes (%s)" % (e[-1],))
+        effective = effective[:last + 1]
         self.args, self.loop, self.loop_aff = [], None, None
         prog = []
         for e in effective:
@@ -547,9 +1070,14 @@ def _class_of(path):
     return classes[0]
 
 
+def _is_docstring(st):
+    return isinstance(st, ast.Expr) and isinstance(st.value, ast.Constant)
+
+
 def translate(repo=None):
     repo = repo or REPO
     tables, classes = {}, {}
+    CONN_ATTRS.clear()
     # pass 1: schemas and method tables
     for fn in STORE_FILES:
         path = os.path.join(repo, STORE_DIR, fn)
@@ -560,30 +1088,54 @@ def translate(repo=None):
         for n in cls.body:
             if not isinstance(n, (ast.FunctionDef, ast.Expr, ast.Pass)):
                 fail(fn, "class-level statement not understood: %s" % type(n).__name__)
+        if len(methods) != sum(1 for n in cls.body if isinstance(n, ast.FunctionDef)):
+            fail(fn, "a method is defined twice")
         classes[cls.name] = (fn, methods)
+    # the facade: which methods are the store's API
+    facade = translate_facade(repo, classes)
+    api = set((v["class"], v["method"]) for v in facade["methods"].values())
+
+    def is_public(cname, mname):
+        return (cname, mname) in api or not is_private(mname)
+
     init_info = None
     for cname, (fn, methods) in classes.items():
         init = methods.get("__init__")
         if init is None:
             fail(fn, "no __init__")
-        for st in init.body:
+        ia = init.args
+        if method_kind(init) != "instance" or len(ia.args) != 2 or ia.vararg or ia.kwarg or ia.kwonlyargs or ia.defaults:
+            fail("%s:%s.__init__" % (fn, cname), "signature not understood")
+        connp = ia.args[1].arg
+        attrs = [t.attr for st in init.body if isinstance(st, ast.Assign) for t in st.targets
+                 if isinstance(t, ast.Attribute) and isinstance(t.value, ast.Name) and t.value.id == "self"
+                 and isinstance(st.value, ast.Name) and st.value.id == connp]
+        if len(attrs) != 1:
+            fail("%s:%s.__init__" % (fn, cname), "the connection must be kept in exactly one attribute")
+        CONN_ATTRS[cname] = attrs[0]
+        for idx, st in enumerate(init.body):
             w = "%s:%s.__init__ line %d" % (fn, cname, st.lineno)
-            if isinstance(st, ast.Expr) and isinstance(st.value, ast.Constant):
+            if _is_docstring(st):
                 continue
-            if isinstance(st, ast.Assign) and not has_events(st):
+            if isinstance(st, ast.Assign) and not has_events(st, cname):
                 continue
             if isinstance(st, ast.Expr) and isinstance(st.value, ast.Call) and \
                     isinstance(st.value.func, ast.Attribute) and st.value.func.attr == "execute":
                 c = st.value
                 tgt = c.func.value
-                ok = (isinstance(tgt, ast.Name) and tgt.id == init.args.args[1].arg) or \
-                     (isinstance(tgt, ast.Attribute) and tgt.attr == "dbConn")
-                if not ok or len(c.args) != 1 or not isinstance(c.args[0], ast.Constant):
+                ok = (isinstance(tgt, ast.Name) and tgt.id == connp) or \
+                     (isinstance(tgt, ast.Attribute) and isinstance(tgt.value, ast.Name) and tgt.value.id == "self"
+                      and tgt.attr == attrs[0])
+                if not ok or len(c.args) != 1 or c.keywords or not isinstance(c.args[0], ast.Constant) \
+                        or not isinstance(c.args[0].value, str):
                     fail(w, "DDL call shape not understood")
                 parse_ddl(c.args[0].value, tables, w)
                 continue
             if isinstance(st, ast.If) and init_info is None:
-                init_info = (cname, fn, st, w)
+                early = (len(st.body) == 1 and isinstance(st.body[0], ast.Return) and st.body[0].value is None)
+                init_info = (cname, fn, st, w, init.body[idx + 1:] if early else None)
+                if early:
+                    break       # `if <own row present>: return` -- the rest of __init__ is the initialisation
                 continue
             fail(w, "__init__ statement not understood: %s" % type(st).__name__)
     for t in tables.values():
@@ -592,8 +1144,10 @@ def translate(repo=None):
     names = [t for t in KNOWN_TABLES if t in tables] + sorted(t for t in tables if t not in KNOWN_TABLES)
     tids = {n: i for i, n in enumerate(names)}
     pb = ProgBuilder(tables, tids)
-    # pass 2: programs
-    meths, notes = [], []
+    # pass 2: programs.  Public methods must translate; private helpers are interpreted by inlining
+    # at their call sites and are additionally listed as methods of their own only when they
+    # translate standalone, write, AND are transactions of their own (end committed).
+    meths, notes, skipped = [], [], []
     for cname in sorted(classes):
         fn, methods = classes[cname]
         for mname in sorted(methods):
@@ -601,78 +1155,78 @@ def translate(repo=None):
                 continue
             where = "%s:%s.%s" % (fn, cname, mname)
             fdef = methods[mname]
-            if fdef.args.vararg or fdef.args.kwarg or fdef.args.kwonlyargs or fdef.decorator_list:
-                fail(where, "signature not understood")
-            params = [a.arg for a in fdef.args.args][1:]
-            env = {p: Val(p) for p in params}
-            mt = MethodTranslator(cname, methods, tables, where)
-            events = []
-            mt.body(fdef.body, env, events, 0)
-            prog, args, loop, nts = pb.build(events, where)
+            public = is_public(cname, mname)
+            try:
+                kind = method_kind(fdef)
+                a = fdef.args
+                if kind is None or a.vararg or a.kwarg or a.kwonlyargs or a.posonlyargs:
+                    fail(where, "signature not understood")
+                params = [x.arg for x in a.args]
+                if kind != "static":
+                    if not params:
+                        fail(where, "signature not understood")
+                    params = params[1:]
+                env = {p: Val(p) for p in params}
+                it = Interp(cname, methods, tables, where)
+                events = []
+                it.body(fdef.body, Frame(env, events))
+                prog, args, loop, nts = pb.build(events, where)
+            except Unrecognised as e:
+                if public:
+                    raise
+                skipped.append({"class": cname, "name": mname, "reason": str(e)})
+                continue
+            if not public and not prog:
+                continue        # a private reader / pure helper: nothing to state about it on its own
+            if not public and prog[-1] != ("commit",):
+                skipped.append({"class": cname, "name": mname,
+                                "reason": "writes without committing: only meaningful inside its callers"})
+                continue
             selects = [e[1] for e in events if e[0] == "sql" and e[1]["verb"] == "select"]
             meths.append({"id": len(meths), "class": cname, "name": mname, "params": params, "prog": prog,
-                          "args": args, "loop": loop, "selects": selects})
+                          "args": args, "loop": loop, "selects": selects, "public": public})
             notes += nts
+    for s in skipped:
+        notes.append("private helper %s.%s is not a method of the model on its own (%s); it is interpreted "
+                     "where it is called" % (s["class"], s["name"], s["reason"]))
     # the guarded initialisation of the identity store
     if init_info is None:
         fail("liteidentitykeystore.py", "no guarded initialisation found in any __init__")
-    cname, fn, ifst, w = init_info
+    cname, fn, ifst, w, rest = init_info
     fn_, methods = classes[cname]
     if ifst.orelse:
         fail(w, "else branch in the initialisation guard")
-    guard_keys = set()
-    for n in ast.walk(ifst.test):
-        if isinstance(n, ast.Call):
-            if not (isinstance(n.func, ast.Attribute) and isinstance(n.func.value, ast.Name)
-                    and n.func.value.id == "self" and not n.args):
-                fail(w, "guard calls something other than a reader of this store")
-            m = [x for x in meths if x["class"] == cname and x["name"] == n.func.attr]
-            if not m or m[0]["prog"] or len(m[0]["selects"]) != 1:
-                fail(w, "guard method is not a single SELECT")
-            s = m[0]["selects"][0]
-            mm = re.fullmatch(r"(\w+) ?= ?(-?\d+)", s["where"].strip())
-            T = tables[s["table"]]
-            if not mm or T["key"] != [mm.group(1)]:
-                fail(w, "guard SELECT does not look one constant key up")
-            guard_keys.add((s["table"], int(mm.group(2))))
-        elif isinstance(n, ast.Compare):
-            if not (len(n.ops) == 1 and isinstance(n.ops[0], ast.Is) and
-                    isinstance(n.comparators[0], ast.Constant) and n.comparators[0].value is None):
-                fail(w, "guard is not an `is None` test")
-        elif not isinstance(n, (ast.BoolOp, ast.Or, ast.Attribute, ast.Name, ast.Constant, ast.Load, ast.Is)):
-            fail(w, "guard expression not understood: %s" % type(n).__name__)
-    if len(guard_keys) != 1:
-        fail(w, "guard must test exactly one row")
-    gtable, gkey = list(guard_keys)[0]
-    env = {}
-    calls = []
-    for st in ifst.body:
-        if isinstance(st, ast.Assign) and len(st.targets) == 1 and isinstance(st.targets[0], ast.Name) \
-                and not has_events(st.value):
-            env[st.targets[0].id] = Val("gen:" + st.targets[0].id)
-        elif isinstance(st, ast.Expr) and isinstance(st.value, ast.Call) and has_events(st.value):
-            calls.append(st)
-        else:
-            fail(w, "initialisation body not understood")
-    if len(calls) != 1:
-        fail(w, "initialisation must make exactly one store call")
-    mt = MethodTranslator(cname, methods, tables, w)
+    when_missing, when_present, (gtable, gkey), gnotes = analyse_guard(ifst.test, cname, methods, tables, w)
+    notes += gnotes
+    pol = "the guard is %s when the own row is missing and %s when it is present" % (when_missing, when_present)
+    if rest is not None:
+        if (when_missing, when_present) != (False, True):
+            fail(w, "early return from __init__ expected exactly when the own row is present, but " + pol)
+        ibody = [st for st in rest if not _is_docstring(st)]
+    else:
+        if (when_missing, when_present) != (True, False):
+            fail(w, "initialisation expected exactly when the own row is missing, but " + pol)
+        ibody = ifst.body
+    it = Interp(cname, methods, tables, "%s:%s.__init__" % (fn, cname), init_ctx=True)
     events = []
-    mt.stmt(calls[0], env, events, 0, False)
+    it.body(ibody, Frame({}, events))
     iprog, iargs, iloop, nts = pb.build(events, w)
     notes += nts
     if iloop is not None or not iprog:
         fail(w, "initialisation program not understood")
+    for a in iargs:
+        if not a["root"].startswith("gen:"):
+            fail(w, "initialisation stores a value that is not generated there")
     gaff = [c["affinity"] for c in tables[gtable]["cols"] if c["name"] == tables[gtable]["key"][0]][0]
-    # the facade
-    facade = translate_facade(repo, classes)
     meta = {"tables": [{"id": tids[n], "name": n, "key": tables[n]["key"],
                         "nonkey": [c["name"] for c in tables[n]["cols"] if not c["rowid"] and c["name"] not in tables[n]["key"]],
                         "affinity": {c["name"]: c["affinity"] for c in tables[n]["cols"]}} for n in names],
-            "methods": [{k: m[k] for k in ("id", "class", "name", "params", "args", "loop")}
+            "methods": [{k: m[k] for k in ("id", "class", "name", "params", "args", "loop", "public", "prog")}
                         | {"writes": bool(m["prog"]),
+                           "static": method_kind(classes[m["class"]][1][m["name"]]) == "static",
                            "loop_affinity": None} for m in meths],
-            "init": {"class": cname, "guard_table": tids[gtable], "guard_key": gkey, "args": iargs},
+            "init": {"class": cname, "guard_table": tids[gtable], "guard_key": gkey, "args": iargs, "prog": iprog},
+            "skipped": skipped,
             "facade": facade, "notes": notes}
     # loop affinities
     for m, mm in zip(meths, meta["methods"]):
@@ -685,8 +1239,8 @@ def translate(repo=None):
                     for kc, v in zip(T["key"], keyv):
                         if v == ("loop",):
                             mm["loop_affinity"] = T["affinity"][kc]
-                    rest = s[4] if s[0] == "insert" else s[3]
-                    for ci, v in rest:
+                    rest_ = s[4] if s[0] == "insert" else s[3]
+                    for ci, v in rest_:
                         if v == ("loop",):
                             mm["loop_affinity"] = T["affinity"][T["nonkey"][ci]]
     # Coq text
@@ -711,7 +1265,7 @@ def translate(repo=None):
         ";\n     ".join("(%d%%N, gen_prog_%d)" % (m["id"], m["id"]) for m in meths),
         tids[gtable], coq_cell(canon(gkey, gaff))))
     for n in notes:
-        L.append("(* note: %s *)" % n)
+        L.append("(* note: %s *)" % n.replace("*)", "* )"))
     return "\n".join(L) + "\n", meta
 
 
